@@ -15,7 +15,7 @@ From Soy Require Import Model.Bytes Model.Num Model.Values Model.Outcome Model.A
   Proofs.ScopeIndepProofs Proofs.ScopeIndepBridge
   Model.Token Model.Parser Model.Compile Spec.CallNames Proofs.CompilePermProofs Proofs.ScopeNames Proofs.ScopeRegistry
   Model.RawText Spec.Text Spec.CmdText Proofs.ScopeText Proofs.ScopeCmdLemmas Proofs.ScopeNsOnce
-  Model.ExprParser Model.RefView Proofs.ScopeExprWf Proofs.ScopeParseShape Proofs.ScopeParseWf.
+  Model.ExprParser Model.RefView Proofs.ScopeExprWf Proofs.ScopeParseShape Proofs.ScopeParseWf Proofs.ScopeCompileWf.
 From Soy Require Model.Checker.
 Open Scope N_scope.
 
@@ -493,6 +493,31 @@ Proof.
 Qed.
 Print Assumptions C02_compiled_bundle_renders_spec_partial.
 
+(* the same for Model/Compile.v's [compile] -- C13's model of the whole of Bundle.Compile (Registry.Add per parsed
+   file, CheckDataRefs with ANY order of MapLiteralNode.Children, SetGlobals, ProcessMessages), the model
+   registry_lookup_exact speaks about.  FULL statement (without sfile_grammar): false, same witness. *)
+Theorem compile_registry_wf_partial : forall node_string o gl srcs cp,
+  compile node_string o gl srcs = COk cp ->
+  (forall f, In (SrcOk f) srcs -> parsed_sfile f) ->
+  (forall f, In (SrcOk f) srcs -> sfile_grammar f = true) ->
+  wf_registry (cp_reg cp) = true.
+Proof. exact compile_registry_wf. Qed.
+Print Assumptions compile_registry_wf_partial.
+
+Theorem C02_compile_renders_spec_partial : forall node_string o gl srcs cp cf fuel name data_id data first_id,
+  compile node_string o gl srcs = COk cp ->
+  (forall f, In (SrcOk f) srcs -> parsed_sfile f) ->
+  (forall f, In (SrcOk f) srcs -> sfile_grammar f = true) ->
+  c_reg cf = cp_reg cp ->
+  let r := render cf fuel name data_id data None None first_id in
+  let s := render_spec cf fuel name data first_id in
+  concat_b (rr_writes r) = sr_out s /\ outcome_agrees (rr_outcome r) (sr_outcome s).
+Proof.
+  intros ns o gl srcs cp cf fuel name data_id data first_id Hc Hp Hg Hr. apply exec_impl_spec_lemma.
+  rewrite Hr. exact (compile_registry_wf ns o gl srcs cp Hc Hp Hg).
+Qed.
+Print Assumptions C02_compile_renders_spec_partial.
+
 (* non-vacuity: {namespace a}{template .x}A{call .y /}{/template}{template .y}B{/template} is a parsed file of the
    grammar that compiles; its call is resolved to a.y *)
 Definition ex_call_tokens : list tok := Eval vm_compute in
@@ -515,6 +540,16 @@ Proof.
   eexists. split.
   - exists 100, (fun _ => []), (fun _ => None), ex_call_tokens. do 2 eexists. vm_compute. reflexivity.
   - repeat split; vm_compute; reflexivity.
+Qed.
+Definition ex_orders : orders := {| o_globals := fun l => l; o_children := fun l => l; o_ph := fun l => l; o_imports := fun l => l |}.
+Definition ex_call_sfile : sfile := {| sfile_name := b "c.soy"; sfile_text := []; sfile_body := ex_call_body |}.
+Example C02_example_compile : exists cp,
+  compile (fun _ => []) ex_orders [] [SrcOk ex_call_sfile] = COk cp /\
+  parsed_sfile ex_call_sfile /\ sfile_grammar ex_call_sfile = true /\ length (r_templates (cp_reg cp)) = 2%nat.
+Proof.
+  eexists. split; [vm_compute; reflexivity|]. split.
+  - exists 100, (fun _ => []), (fun _ => None), ex_call_tokens. do 2 eexists. vm_compute. reflexivity.
+  - split; vm_compute; reflexivity.
 Qed.
 (* ... and a let directly inside a msg is what [rt_bad] detects *)
 Example C02_example_let_in_msg :
